@@ -364,10 +364,10 @@ func genCap(c *vh.Ctx) []*capCase {
 		capv = int(v)
 	}
 	return []*capCase{
-		{Kind: "cap", Class: "cap+1-accepted", Total: capv + 1, Cap: capv},
-		{Kind: "cap", Class: "over-cap-rejected", Total: capv + 3*65535, Cap: capv},
-		// the buffer holds exactly cap bytes (still accepted), then one more byte
-		{Kind: "cap", Class: "exactly-cap-then-over", Total: capv + 70000, Cap: capv, Plan: exactPlan(capv)},
+		// the incomplete buffer grows to exactly cap bytes (one byte missing), then completes
+		{Kind: "cap", Class: "buffer-at-cap-accepted", Total: capv + 1, Cap: capv, Plan: exactPlan(capv)},
+		// the incomplete buffer reaches cap+1 bytes
+		{Kind: "cap", Class: "buffer-over-cap-rejected", Total: capv + 2, Cap: capv, Plan: append(exactPlan(capv), 1)},
 	}
 }
 
@@ -418,33 +418,27 @@ func doCap(c *vh.Ctx, cc *capCase) {
 		}
 	}
 	lo := 0
-	for k, hi := range ends {
-		if k == errDueAt {
-			// everything before is in the buffer and must not have raised an error
-			time.Sleep(50 * time.Millisecond)
-			srv.pollErr()
-			if srv.errSeen {
-				c.Res.Violate("monitor", "cap-early-error", fmt.Sprintf("incomplete buffer of %d bytes (cap %d) already rejected: %s", lo, cc.Cap, srv.errText), cc)
-				return
-			}
-		}
+	for _, hi := range ends {
 		_ = b.SetWriteDeadline(time.Now().Add(waitTimeout))
 		if _, err := b.Write(frame(msg[lo:hi])); err != nil {
 			break
 		}
 		lo = hi
-		if k == errDueAt {
-			if !srv.waitFor(0, true, waitTimeout) {
-				c.Res.Violate("monitor", "cap-not-enforced", fmt.Sprintf("incomplete buffer of %d bytes exceeds the cap %d but no error was reported", hi, cc.Cap), cc)
-			}
-			return
+	}
+	if errDueAt >= 0 {
+		if !srv.waitFor(0, true, 3*waitTimeout) {
+			c.Res.Violate("monitor", "cap-not-enforced", fmt.Sprintf("an incomplete buffer of %d bytes exceeds the cap %d but no error was reported", ends[errDueAt], cc.Cap), cc)
 		}
+		if srv.count() != 0 {
+			c.Res.Violate("monitor", "cap-message-delivered", "a message was delivered although the cap was exceeded first", cc)
+		}
+		return
 	}
 	if errDueAt < 0 {
-		ok := srv.waitFor(1, false, waitTimeout)
+		ok := srv.waitFor(1, false, 3*waitTimeout)
 		got := srv.snapshot()
 		if !ok || srv.errSeen || len(got) != 1 || string(got[0].Raw) != string(msg) {
-			c.Res.Violate("monitor", "cap-legitimate-message-rejected", fmt.Sprintf("message of %d bytes (cap %d, never more than the cap buffered incomplete) not delivered: err=%q", len(msg), cc.Cap, srv.errText), cc)
+			c.Res.Violate("monitor", "cap-legitimate-message-rejected", fmt.Sprintf("message of %d bytes (cap %d; the incomplete buffer never exceeds the cap) not delivered: err=%q", len(msg), cc.Cap, srv.errText), cc)
 		}
 	}
 }
